@@ -587,7 +587,7 @@ def main(tier, seed):
     if tier == "quick":
         plan = [(g, 2, [0]) for g in g2] + \
                [(g, 1, [0, 1]) for g in g2] + \
-               [(g, 2, ["slim", 0, 1]) for g in g2[:8]] + \
+               [(g, 2, ["slim", 0, 1]) for g in g2[:5]] + \
                [(g, 2, ["slim", 0]) for g in g3[::2]] + \
                [(g, 3, ["slim", 0]) for g in (((1,), (0,)),)] + \
                [(g, 1, [0, 1]) for g in families()]
@@ -617,7 +617,8 @@ def main(tier, seed):
         jobs.append({"graphs": [it]})
     # the same module names with other contents, one after the other in one
     # process (and in one HOME): nothing of an earlier edition may survive
-    jobs.append({"graphs": [(g, 1, [0, 1]) for g in g2[:6]]})
+    jobs.insert(0, {"graphs": [(g, 1, [0]) for g in
+                               (g2[:6] if tier == "thorough" else g2[1:4])]})
     agg = core.pmap(explore_graph, jobs)
     agg.n["graphs"] = len(plan)
     mods = bundled_modules()
